@@ -242,6 +242,26 @@ static void h_rle_hostile(const vcase *c) {
     free(b);
 }
 
+/* rle_hostile_hdr HEX cap : varintRLEDecodeWithHeader on a stream whose count header
+ * need not agree with its runs (stitched / corrupt streams); the runs present in
+ * the input cover at least the header count, so the decoder stops inside the input */
+static void h_rle_hostile_hdr(const vcase *c) {
+    size_t len;
+    uint8_t *b = arg_hex(c, 0, &len);
+    size_t cap = (size_t)arg_u64(c, 1);
+    gpage in = gpage_new(b, len);
+    gbuf og = gbuf_new(cap * 8, 0);
+    size_t ret = varintRLEDecodeWithHeader(in.p, (uint64_t *)og.p, cap);
+    out_u64("ret", ret);
+    out_str("guard", gbuf_guard(&og));
+    size_t t = touched_elems(&og, cap);
+    out_u64("touched", t);
+    out_list("out", (uint64_t *)og.p, t);
+    gbuf_free(&og);
+    gpage_free(&in);
+    free(b);
+}
+
 /* rle_rc HEX : varintRLEGetRunCount on an exact-size guard-paged input */
 static void h_rle_rc(const vcase *c) {
     size_t len;
@@ -407,7 +427,7 @@ static void h_dict_dec(const vcase *c) {
 }
 
 static const vreg tab[] = {
-    {"rle_enc", h_rle_enc},   {"rle_cap", h_rle_cap},   {"rle_rc", h_rle_rc}, {"rle_hostile", h_rle_hostile},
+    {"rle_enc", h_rle_enc},   {"rle_cap", h_rle_cap},   {"rle_rc", h_rle_rc}, {"rle_hostile", h_rle_hostile}, {"rle_hostile_hdr", h_rle_hostile_hdr},
     {"dict_enc", h_dict_enc}, {"dict_with", h_dict_with}, {"dict_cap", h_dict_cap},
     {"dict_dec", h_dict_dec},
 };
